@@ -6,6 +6,11 @@ props = [json.loads(l) for l in open(os.path.join(root, "properties.jsonl"))]
 
 # id -> (category, text, design_ref, note, technique)
 claimed = {
+ "C11": ("exploration",
+         "Stateful model-based property test: generated histories over Add / Remove / Route / RemoveRoute / Handle on root pools built to collide (shared fixed prefixes, trailing-slash and variable variants, a service on '/'); after every step the history-built container and a fresh container built from the model's content answer a derived probe set through ServeHTTP and Dispatch and must agree.",
+         "DESIGN.md §5 C11",
+         "The model is the list of registered services/routes/patterns in registration order. Probe sets are derived from everything ever registered.",
+         "stateful property-based testing (rapid): history-built vs fresh-built differential"),
  "C10": ("fault_enumeration",
          "For every generated chain configuration every panic position is enumerated on a fresh container (each filter before/after passing control, the handler before/between/after writes, the If-condition inside route selection, the container filters and error writer on the routing-error path), crossed with generated recovery mode, encoding, provider, entry point and router; afterwards a normal request, a generated tail of further panicking/normal requests, the compressor ledger and an Add+Remove probe decide whether the container is still usable.",
          "DESIGN.md §5 C10",
